@@ -462,7 +462,127 @@ func ruleF8size(c *Ctx) {
 			}
 		}
 	}
+	// the other direction: an exemption pass 1 applies before counting a prefix (any predicate of
+	// the operands that GetPrefixSize tests besides Require66h/Require67h) is consulted by some
+	// emitter's prefix guard too — otherwise pass 1 leaves out a prefix that is emitted
+	emitted := map[string]bool{}
+	for _, em := range []string{"handleMOV", "generateArithmeticCode", "generateLogicalCode", "handleNOT", "handleIMUL", "handlePUSH", "handlePOP"} {
+		if g := c.L.SSAFunc("internal/codegen", em); g != nil {
+			for _, b := range []byte{0x66, 0x67} {
+				for _, blkPreds := range prefixGuardLeafPredicates(g, b) {
+					emitted[blkPreds] = true
+				}
+			}
+		}
+	}
+	exempt := map[string]bool{}
+	for _, b := range gp.Blocks {
+		if iff, ok := b.Instrs[len(b.Instrs)-1].(*ssa.If); ok {
+			for _, n := range leafPredicates(iff.Cond, 0) {
+				exempt[n] = true
+			}
+		}
+	}
+	var names []string
+	for n := range exempt {
+		names = append(names, n)
+	}
+	sort.Strings(names)
+	for _, n := range names {
+		if n == "Require66h" || n == "Require67h" {
+			continue
+		}
+		c.check(emitted[n], "F8s", "GetPrefixSize|condition "+n+" mirrored by an emitter", c.L.Pos(gp.Pos()), "pass 1 consults "+n+"() before counting a prefix but no emitter's prefix guard does: a prefix is emitted that pass 1 did not count, and every later label is off by one")
+	}
 	c.floor("F8s", 18)
+}
+
+// leafPredicates: the interface methods a condition is computed from, looking into the bodies
+// of repository helpers it calls (two levels).
+func leafPredicates(v ssa.Value, depth int) []string {
+	var out []string
+	seen := map[ssa.Value]bool{}
+	var walk func(ssa.Value)
+	walk = func(x ssa.Value) {
+		if seen[x] {
+			return
+		}
+		seen[x] = true
+		if call, ok := x.(*ssa.Call); ok {
+			if call.Call.IsInvoke() {
+				out = append(out, call.Call.Method.Name())
+				return
+			}
+			if sc := call.Call.StaticCallee(); sc != nil {
+				if strings.HasPrefix(funcName(sc), modPath) && sc.Blocks != nil && depth < 2 {
+					n := 0
+					callsIn(sc, func(ci ssa.CallInstruction) {
+						if ci.Common().IsInvoke() {
+							out = append(out, ci.Common().Method.Name())
+							n++
+						} else if inner := ci.Common().StaticCallee(); inner != nil && strings.HasPrefix(funcName(inner), modPath) {
+							if cv, ok := ci.(*ssa.Call); ok {
+								out = append(out, leafPredicates(cv, depth+1)...)
+								n++
+							}
+						}
+					})
+					if n == 0 {
+						out = append(out, sc.Name())
+					}
+				}
+				// other library calls (strings.ToUpper of the mnemonic …) say nothing about the operands
+			}
+			return
+		}
+		if in, ok := x.(ssa.Instruction); ok {
+			for _, op := range in.Operands(nil) {
+				if op != nil && *op != nil {
+					walk(*op)
+				}
+			}
+		}
+	}
+	walk(v)
+	return out
+}
+
+// prefixGuardLeafPredicates: as prefixGuardPredicates, with helpers looked into.
+func prefixGuardLeafPredicates(f *ssa.Function, b byte) []string {
+	var out []string
+	for _, blk := range f.Blocks {
+		for _, in := range blk.Instrs {
+			call, ok := in.(*ssa.Call)
+			if !ok {
+				continue
+			}
+			bi, ok := call.Call.Value.(*ssa.Builtin)
+			if !ok || bi.Name() != "append" || len(call.Call.Args) != 2 {
+				continue
+			}
+			sh := (&shaper{}).slice(call.Call.Args[1])
+			if len(sh) != 1 || sh[0].Kind != bConst || sh[0].C != b {
+				continue
+			}
+			d := blk
+			for hop := 0; hop < 4; hop++ {
+				if len(d.Preds) != 1 {
+					break
+				}
+				pr := d.Preds[0]
+				iff, ok := pr.Instrs[len(pr.Instrs)-1].(*ssa.If)
+				if !ok {
+					break
+				}
+				out = append(out, leafPredicates(iff.Cond, 0)...)
+				if !pureCondBlock(pr) {
+					break
+				}
+				d = pr
+			}
+		}
+	}
+	return out
 }
 
 func sizedThroughTable(m string) bool {
